@@ -10,6 +10,8 @@ Four exhaustively enumerated spaces, all on the real implementation:
              linear extension of its abTEM tasks (cap -> deviation bound) with a mutation monitor on every task input;
              all schedules must return the same result (5e-6: FFTW may take another code path for a differently
              aligned buffer; a shared-state bug moves results by orders of magnitude more).
+ R  reuse    one set of builder / potential / detector / scan OBJECTS is used for a sequence of eager and lazy runs; every run must equal
+             the run on fresh objects (histories of length 4, both orders).
  J  joint    several different lazy simulations are evaluated in ONE dask graph - every subset of a member list - and each must equal
              the result it gives on its own (dask key collisions, shared layers).
  D  threads  (race detector only, sampling, never the deciding step) the same graphs free-running on dask's threaded
@@ -83,6 +85,14 @@ def check(ctx):
     ctx.extra["schedule_cases_by_completed_deviation_bound"] = dict(collections.Counter(str(r.get("bound")) for r in res if r.get("exhaustive") is False))
     if any(r.get("exhaustive") is False for r in res):
         ctx.cap("some task graphs have more linear extensions than the cap: covered all schedules within the deviation bound instead")
+    # R: the SAME builder / potential / detector / scan objects are used for a sequence of runs (eager, lazy, eager, lazy with another
+    # max_batch, in all 4 orders of the first two): every run must equal the run on fresh objects (objects remember grids, limits, caches)
+    R = []
+    for p, d, s_ in itertools.product(pots, dets, ("custom", "grid_ep") if q else ("custom", "line", "grid", "grid_ep")):
+        if q and (pots.index(p) + dets.index(d)) % 2:
+            continue
+        R.append({"space": "R", "b": "probe", "p": p, "ep": 1 if (pots.index(p) % 2) else None, "d": d, "s": s_})
+    ctx.run(R, "run_reuse", rule="R: one set of objects reused for the run sequences (eager, lazy1, eager, lazy2) and (lazy1, eager, lazy2, eager) vs fresh objects", space="R object reuse")
     # J: several lazy simulations evaluated in ONE dask graph (every subset of a member list): each must give what it gives on its own
     J = [{"members": m} for m in JOINT_SETS[: (2 if q else len(JOINT_SETS))]]
     ctx.run(J, "run_joint", batch=1, rule="J: all subsets (size >= 2) of 5-6 different lazy simulations computed in one dask.compute call vs each on its own", space="J joint graphs")
@@ -233,6 +243,42 @@ def run_schedules(c):
     return {"viol": viol, "obs": "%d heavy/%d tasks, %d schedules, %s" % (r["heavy"], r["tasks"], r["runs"], "all %s linear extensions" % r["linear_extensions"] if r["exhaustive"] else
                                                                        "all with <=%s deviations %r%s" % (r["bound"], r["level_sizes"], (", level %(deviations)d (%(schedules)d schedules) over budget" % r["skipped_level"]) if r["skipped_level"] else "")),
             "nt": r["heavy"] >= 2, "tr": r["runs"], "st": r["runs"], "ref": r["runs"], "exhaustive": r["exhaustive"], "bound": r["bound"]}
+
+
+# --------------------------------------------------------------------------------------------- R
+def run_reuse(c):
+    from mc import universe as U
+
+    def run(objs, lazy, mb):
+        b, pot, det, sc = objs
+        kw = dict(lazy=lazy, **({"max_batch": mb} if lazy else {}))
+        out = b.multislice(pot, scan=sc, detectors=det, **kw)
+        outs = out if isinstance(out, list) else [out]
+        return [o.compute() for o in outs] if lazy else outs
+
+    def objects():
+        return (U.builder(c["b"]), U.potential(c["p"], c["ep"]), U.detector(c["d"]), U.scan(c["s"]))
+
+    viol, worst, tr = [], 0.0, 0
+    try:
+        ref = run(objects(), False, None)
+    except Exception as e:  # noqa: BLE001  (outcome classes are space A's business)
+        return {"viol": [], "obs": "raises:" + type(e).__name__, "nt": False, "tr": 1}
+    for seq in ((("eager", None), ("lazy", 1), ("eager", None), ("lazy", 2)), (("lazy", 1), ("eager", None), ("lazy", 2), ("eager", None))):
+        objs = objects()
+        for k, (mode, mb) in enumerate(seq):
+            try:
+                got = run(objs, mode == "lazy", mb)
+            except Exception as e:  # noqa: BLE001
+                viol.append({"key": "reuse/raises/%s" % type(e).__name__, "msg": "run %d (%s) of the sequence %r on reused objects raised %s: %s (%s)" % (k, mode, seq, type(e).__name__, str(e)[:120], c)})
+                break
+            tr += 1
+            why, e_ = U.compare_results(ref, got, RTOL, what=("fresh objects", "reused objects"))
+            worst = max(worst, e_)
+            if why:
+                viol.append({"key": "reuse/%s-run-%d" % (mode, k), "msg": "run %d (%s, max_batch=%r) of %r on the SAME objects: %s (%s)" % (k, mode, mb, [m for m, _ in seq], why, c)})
+                break
+    return {"viol": _dedupe(viol), "obs": U.result_digest(ref), "nt": True, "tr": tr + 1, "ref": tr, "err": worst}
 
 
 # --------------------------------------------------------------------------------------------- J
